@@ -182,6 +182,19 @@ def characterise_writer(facts, wb):
                                 order.append(x[2][1])
                 if order and order != sorted(order):
                     encoding += "(bytes swapped)"
+                # a fixed-size output measured in code points and filled with code units
+                for bb, t in eb.calls():
+                    nm = callee_names(t)[1] or ""
+                    size_t = None
+                    if nm.endswith("vec::from_elem") and len(t["args"]) == 2:
+                        size_t = eb.term_of_operand(t["args"][1])
+                    elif nm.rsplit("::", 1)[-1] == "resize" and len(t["args"]) >= 2 and "Vec" in nm:
+                        size_t = eb.term_of_operand(t["args"][1])
+                    if size_t is not None and any(x[0] == "call" and x[1].rsplit("::", 1)[-1] == "count" and any(
+                            y[0] == "call" and y[1].endswith("<impl str>::chars") for y in walk(x)) for x in walk(size_t)):
+                        grows = any((callee_names(t2)[1] or "").rsplit("::", 1)[-1] in ("push", "extend", "extend_from_slice") and "Vec" in (callee_names(t2)[1] or "") for bb2, t2 in eb.calls())
+                        if not grows:
+                            wrong_enc = "the output is created with chars().count() units and then filled from encode_utf16(): a character outside the BMP is one char but two UTF-16 units, so the tail of such a message is cut off"
             else:
                 # a hand-written encoder: `char as u16` keeps the low 16 bits only (no surrogate pairs)
                 bodies = [eb] + list(facts.closures_of(eb))
@@ -562,6 +575,19 @@ def label_rules(facts, rep, R3, ser, par):
     bad = None
     unk = None
     seen = 0
+    # every trip round the message loop that moves the cursor looks up the labels attached to the cell it leaves:
+    # a trip that steps over a cell on the strength of its *content* loses the key of a message that looks like that
+    for p in rpaths:
+        if p.end != "loop":
+            continue
+        evs_ = [e for e in p.events if e["k"] == "call" and e["callee"]]
+        if any(e["callee"].rsplit("::", 1)[-1] in ("read_labels", "read_label", "labels_at") for e in evs_):
+            continue
+        moves = [e["callee"].rsplit("::", 1)[-1] for e in evs_ if "BinArchiveReader" in e["callee"] and e["callee"].rsplit("::", 1)[-1] in ("skip", "seek")]
+        data_tests = [fmt(c_[1])[:60] for c_ in p.conds if any(x[0] == "call" and ("BinArchive::read_" in x[1] or "BinArchiveReader::<'a>::read_" in x[1]) for x in walk(c_[1]))
+                      and c_[1][0] != "discr"]
+        if moves and data_tests:
+            bad = "a trip round the message loop can move the cursor (%s) without looking up the labels at the cell it leaves, decided by the cell's content (%s): a key whose message has that content is lost" % (moves[0], data_tests[0])
     for p in rpaths:
         evs = [e for e in p.events if e["k"] == "call" and e["callee"]]
         lab = [i for i, e in enumerate(evs) if e["callee"].endswith("BinArchiveReader::<'a>::read_labels") or e["callee"].endswith("BinArchiveReader::<'a>::read_label")]
